@@ -309,12 +309,16 @@ func (m *Morass) Clear() error {
 	m.pos = 0
 	m.len = 0
 	m.fast = false
-	select {
-	case m.chunk = <-m.pool:
-		if m.chunk == nil {
-			m.chunk = make(sorter, 0, m.chunkSize)
+	if m.chunk != nil {
+		m.chunk = m.chunk[:0]
+	} else {
+		select {
+		case m.chunk = <-m.pool:
+			if m.chunk == nil {
+				m.chunk = make(sorter, 0, m.chunkSize)
+			}
+		default:
 		}
-	default:
 	}
 
 	return nil
